@@ -11,7 +11,7 @@ from ..facts import (physics_seeds, qha_attr_hook, LONG, OFFD, FREQ, GAMMA, VDR,
                      MODE_DEP, QVOL)
 from ..model import dotted_name, src, body_wo_doc, is_logging_stmt
 from ..report import AnalysisError
-from ..sym import Ev, Obj, AVG, as_sym
+from ..sym import Ev, Obj, AVG, as_sym, RaisedV
 from .C01 import reference, check_t0_mask, AU
 
 SHEAR = "cij.core.phonon_contribution.shear:ShearElasticModulusPhononContribution"
@@ -50,7 +50,15 @@ def r_gap(ctx, model):
         if f is None:
             raise AnalysisError(f"anchor vanished: {cref}.isothermal_to_adiabatic")
         w = model.where(f"{owner}.isothermal_to_adiabatic", f)
-        got = norm(ev.get_attr(Obj(cref), "isothermal_to_adiabatic"))
+        try:
+            got = norm(ev.get_attr(Obj(cref), "isothermal_to_adiabatic"))
+        except RaisedV:
+            raise
+        except AnalysisError as e:
+            # a formulation that does not reduce through average_over_modes cannot be read on the AVG basis; the cell-by-cell fold
+            # R02.7 decides the same identity (same reference) through whatever code performs the reduction
+            ctx.assume(f"R02.1-3 {kind}: the AVG-basis normal form is not available for this formulation ({e.reason[:120]}); the gap is decided cell by cell by R02.7")
+            continue
         wantk = want
         if kind == "long":      # both strain fractions of a longitudinal task are the same e_i (R04.5)
             got, wantk = got.subs(E1, E0), want.subs(E1, E0)
@@ -76,6 +84,40 @@ def r_gap(ctx, model):
         ctx.check(same, f"{kind}.value_adiabatic", model.where(f"{o2}.value_adiabatic", f2),
                   expected="value_isothermal + isothermal_to_adiabatic", found=short(ad - iso - got)[:300],
                   explanation=f"adiabatic value of the {kind} class is not isothermal + gap: {why}", key=f"{kind}.value_adiabatic")
+
+
+def r_gap_cells(ctx, model):
+    """the gap folded cell by cell on a 2 x 4 (q, m) grid with the real reduction code (cijsa/cellfold.py): both mode averages are
+    normalised by the sum of the weights and masked at Gamma, whatever code performs the reduction"""
+    from ..cellfold import CellFold
+    ref = reference()
+    dpdt = sp.diff(ref["P_th"], T)
+    cf = CellFold(ctx, model)
+    for kind, cref in (("long", LONG), ("offd", OFFD)):
+        owner, f, _ = model.find_member(cref, "isothermal_to_adiabatic")
+        if f is None:
+            raise AnalysisError(f"anchor vanished: {cref}.isothermal_to_adiabatic")
+        w = model.where(f"{owner}.isothermal_to_adiabatic", f)
+        got = cf.attr(cref, "isothermal_to_adiabatic")
+        want = T * V * (3 * NAT * cf.avg(dpdt / (3 * E0))) * (3 * NAT * cf.avg(dpdt / (3 * E1))) / CV / AU
+        bad = cf.differs(got, want, pairs=True, same_strain=(kind == "long"))
+        ctx.check(not bad, f"{kind}.isothermal_to_adiabatic cell by cell (2 q-points x 4 modes, symbolic weights)", w,
+                  expected="T V/(9 e_i e_j C_V) (3 NAT)^2 avg[dp/dT] avg[dp/dT], avg = sum_q w_q/sum(w) 1/NP sum_m [not Gamma acoustic]",
+                  found="differs in " + ", ".join(bad[:4]) if bad else "equal for every cell and cell pair",
+                  explanation=f"the adiabatic-isothermal gap of the {kind} class, folded cell by cell, is not the product of two weight-normalised, Gamma-masked "
+                              f"mode sums of dP/dT: differs in {', '.join(bad[:4])}", key=f"{kind}.isothermal_to_adiabatic.cells")
+        ok, found = check_t0_mask(got)
+        ctx.check(ok, f"{kind}.isothermal_to_adiabatic T=0 rows (cell fold)", w, expected="rows t_array == 0 set to 0", found=found,
+                  explanation="the gap is not zeroed on the T = 0 rows (0/0 there)", key=f"{kind}.isothermal_to_adiabatic.cells.t0mask")
+        o2, f2, _ = model.find_member(cref, "value_adiabatic")
+        if f2 is None:
+            raise AnalysisError(f"anchor vanished: {cref}.value_adiabatic")
+        d = as_sym(cf.attr(cref, "value_adiabatic")) - as_sym(cf.attr(cref, "value_isothermal")) - as_sym(got)
+        badv = cf.differs(d, sp.Integer(0), pairs=True, same_strain=(kind == "long"))
+        ctx.check(not badv, f"{kind}.value_adiabatic = value_isothermal + gap (cell fold)", model.where(f"{o2}.value_adiabatic", f2), expected="value_isothermal + isothermal_to_adiabatic",
+                  found="differs in " + ", ".join(badv[:4]) if badv else "equal", explanation=f"adiabatic value of the {kind} class is not isothermal + gap (cell by cell)",
+                  key=f"{kind}.value_adiabatic.cells")
+    ctx.call_sites += cf.ev.call_sites
 
 
 def r_cv(ctx, model):
@@ -141,6 +183,7 @@ def r_shear(ctx, model):
 
 RULES = [
     ("R02.1-3", "gap = T V (dP/dT)^2/(9 e_i e_j C_V) (normal form), adiabatic = isothermal + gap, gap masked at T = 0", r_gap),
+    ("R02.7", "the gap folded cell by cell on a 2 x 4 (q, m) grid through the real reduction code: weights normalised in both averages", r_gap_cells),
     ("R02.5", "task list folded for all 21 components: every shear component's adiabatic result is the same expression as its isothermal result", r_shear),
     ("R02.6", "C_V is qha's volumetric heat capacity cv_tv_au", r_cv),
 ]
